@@ -24,6 +24,8 @@ pub enum Val {
     Add(Box<Val>, Box<Val>),
     List(Vec<Val>),
     Rec(Vec<(String, Val)>),
+    /// 0: 1 / 0, 1: 0 / 0, 2: -1 / 0 - values JSON cannot spell (the declared key must still be there)
+    NonFinite(u8),
 }
 
 #[derive(Clone, Debug, Serialize, Deserialize)]
@@ -70,6 +72,7 @@ fn val_src(v: &Val) -> String {
         Val::Add(a, b) => format!("({} + {})", val_src(a), val_src(b)),
         Val::List(v) => format!("[{}]", v.iter().map(val_src).collect::<Vec<_>>().join(", ")),
         Val::Rec(v) => format!("{{{}}}", v.iter().map(|(k, x)| format!("{}: {}", k, val_src(x))).collect::<Vec<_>>().join(", ")),
+        Val::NonFinite(k) => ["(1 / 0)", "(0 / 0)", "(-1 / 0)"][*k as usize % 3].to_string(),
     }
 }
 
@@ -105,6 +108,7 @@ impl Model {
                 }
             }
             Val::List(v) => v.iter().map(|x| self.eval(x)).collect::<Result<Vec<_>, _>>().map(MV::List),
+            Val::NonFinite(k) => Ok(num([f64::INFINITY, f64::NAN, f64::NEG_INFINITY][*k as usize % 3])),
             Val::Rec(v) => {
                 let mut out: Vec<(String, MV)> = Vec::new();
                 for (k, x) in v {
@@ -282,6 +286,10 @@ impl Check for Cli {
                             fail!(format!("outputs:keys:{}", mode), "output keys {:?}, expected {:?} (declaration order)\n{}", names_got, names_want, describe());
                         }
                         for ((k, g), (_, w)) in fields.iter().zip(want) {
+                            // JSON has no spelling for non-finite numbers: only the key is required then
+                            if !w.all_finite() || w.has_nan() {
+                                continue;
+                            }
                             if !g.model_eq(w) {
                                 fail!(format!("outputs:value:{}", mode), "output {} = {:?}, expected {:?}\n{}", k, g, w, describe());
                             }
@@ -347,7 +355,13 @@ fn val(t: &mut Tape, bound: &[String], depth: usize) -> Val {
         1 => Val::Hash(KEYS[t.pick(KEYS.len())].into()),
         2 => Val::InputsDot(KEYS[t.pick(KEYS.len())].into()),
         3 if !bound.is_empty() => Val::Ref(bound[t.pick(bound.len())].clone()),
-        3 | 4 => Val::Lit(num(t.pick(10) as f64)),
+        3 | 4 => {
+            if t.chance(1, 12) {
+                Val::NonFinite(t.pick(3) as u8)
+            } else {
+                Val::Lit(num(t.pick(10) as f64))
+            }
+        }
         5 => Val::Add(Box::new(val(t, bound, depth - 1)), Box::new(val(t, bound, depth - 1))),
         6 => {
             let k = t.pick(3);
